@@ -307,519 +307,11 @@ def check_generated_code(rep):
         return text, env, mod_, node
 
     for label in ('chain level', 'request core'):
-        try:
-            text, env, mod_, node = via_template(label)
-            how = 'template rendered with placeholder names'
-        except AnalysisError as e1:
-            try:
-                text, env, mod_, node = sample_generated(repo, label)
-                how = 'text produced for sample inputs, every text-producing statement of the builder covered'
-            except AnalysisError as e2:
-                raise AnalysisError('%s; and the builder could not be run on sample inputs either: %s' % (e1, e2))
+        # (a builder the template evaluator cannot follow is an analysis gap: the text is never obtained by running
+        # the builder, concretely or otherwise -- that would leave the family of technique this checker belongs to)
+        text, env, mod_, node = via_template(label)
+        how = 'template rendered with placeholder names'
         _judge_generated(rep, label, text, env, mod_, node, how)
-
-
-def sample_generated(repo, label):
-    """-> (text, env keys, module, node): the text the builder hands to compile_code for sample inputs (see SampleRun)"""
-    sinter = repo.mod('clastic.sinter')
-    cps = sinter.func('compile_code').params()
-    o = lambda n, names: _Opaque(n, names)
-    if label == 'chain level':
-        fn = sinter.func('compile_chain')
-        args = {'funcs': [o('f0', ['next', 'a', 'q']), o('f1', ['next', 'b', 'a']), o('f2', ['a', 'b', 'c', 'd'])],
-                'params': [['a'], ['b'], ['c', 'd']], 'inner_name': 'next'}
-    else:
-        fn = repo.mod('clastic.middleware.core').func('_create_request_inner')
-        args = {'endpoint': o('endpoint', ['a']), 'render': o('render', ['b', 'context']), 'all_args': ['a', 'b'],
-                'endpoint_args': ['a'], 'render_args': ['b', 'context']}
-    run = SampleRun(repo, 'compile_code')
-    got = run.capture(fn, args)
-    bound = dict(zip(cps, got[0]))
-    bound.update(got[1])
-    text, env = bound.get(cps[0]), bound.get('env')
-    if not isinstance(text, str) or not isinstance(env, dict) or not all(isinstance(k, str) for k in env):
-        raise AnalysisError('generated %s: compile_code is not handed a text and a name->object mapping on the sample run' % label)
-    run.require_coverage()
-    return text, sorted(env), fn.mod, fn.node
-
-
-# ---- following a text builder by running it on sample inputs -----------------------------------------------------------
-class _Opaque(object):
-    """A value the builder only passes around (a callable of the chain, an imported class)."""
-
-    def __init__(self, label, arg_names=None):
-        self.label, self.arg_names = label, arg_names
-
-    def __repr__(self):
-        return '<%s>' % self.label
-
-
-class _FB(object):
-    """Model of sinter.get_fb(f): what the builders use of a FunctionBuilder."""
-
-    def __init__(self, f):
-        if not isinstance(f, _Opaque) or f.arg_names is None:
-            raise AnalysisError('get_fb() applied to %r on the sample run' % (f,))
-        self.f = f
-        self.varkw = None
-
-    def get_arg_names(self, only_required=False):
-        return list(self.f.arg_names)
-
-    def get_defaults_dict(self):
-        return {}
-
-
-class _Captured(Exception):
-    def __init__(self, args, kwargs):
-        Exception.__init__(self)
-        self.call = (args, kwargs)
-
-
-class _Flow(Exception):
-    def __init__(self, value=None):
-        Exception.__init__(self)
-        self.value = value
-
-
-class _Return(_Flow):
-    pass
-
-
-class _Break(_Flow):
-    pass
-
-
-class _Continue(_Flow):
-    pass
-
-
-class SampleRun(object):
-    """Interpreter for the side-effect-free subset of Python the text builders are written in (strings, numbers, lists,
-    tuples, sets, dicts; loops, comprehensions, recursion, helper functions of the same module), applied to the *syntax
-    tree* of the analysed functions with sample arguments.  The run stops at the call of ``stop_at`` and yields its
-    arguments.  Anything outside the subset is an AnalysisError.  ``require_coverage`` then demands that every statement
-    of the interpreted functions that can contribute text was executed, so no fragment of generated code stays unseen."""
-
-    PLAIN = (str, int, float, bool, type(None), list, tuple, set, frozenset, dict, bytes)
-    BUILTINS = {'len': len, 'range': lambda *a: list(range(*a)), 'sorted': sorted, 'set': set, 'list': list, 'tuple': tuple, 'dict': dict,
-                'zip': lambda *a: list(zip(*a)), 'enumerate': lambda *a: list(enumerate(*a)), 'reversed': lambda x: list(reversed(x)),
-                'str': str, 'repr': repr, 'min': min, 'max': max, 'any': any, 'all': all, 'bool': bool, 'int': int,
-                'frozenset': frozenset, 'sum': sum, 'print': lambda *a, **k: None}
-    METHODS = {
-        str: {'join', 'format', 'strip', 'lstrip', 'rstrip', 'split', 'rsplit', 'startswith', 'endswith', 'replace', 'upper', 'lower',
-              'splitlines', 'partition', 'rpartition', 'title', 'zfill', 'ljust', 'rjust', 'center', 'count', 'find', 'index', 'isdigit',
-              'isidentifier', 'expandtabs', 'capitalize'},
-        list: {'append', 'extend', 'insert', 'pop', 'index', 'count', 'copy', 'reverse', 'sort', 'remove', 'clear'},
-        tuple: {'index', 'count'},
-        set: {'add', 'update', 'discard', 'remove', 'union', 'difference', 'intersection', 'copy', 'issubset', 'issuperset',
-              'difference_update', 'intersection_update', 'symmetric_difference', 'isdisjoint', 'clear', 'pop'},
-        frozenset: {'union', 'difference', 'intersection', 'copy', 'issubset', 'issuperset', 'symmetric_difference', 'isdisjoint'},
-        dict: {'get', 'items', 'keys', 'values', 'update', 'setdefault', 'pop', 'copy', 'clear'},
-    }
-    MODELLED = {'get_fb': lambda f, *a, **k: _FB(f), 'get_arg_names': lambda f, *a, **k: _FB(f).get_arg_names()}
-    BINOPS = {ast.Add: lambda a, b: a + b, ast.Sub: lambda a, b: a - b, ast.Mult: lambda a, b: a * b, ast.Mod: lambda a, b: a % b,
-              ast.BitOr: lambda a, b: a | b, ast.BitAnd: lambda a, b: a & b, ast.BitXor: lambda a, b: a ^ b, ast.FloorDiv: lambda a, b: a // b}
-    CMPOPS = {ast.Eq: lambda a, b: a == b, ast.NotEq: lambda a, b: a != b, ast.Lt: lambda a, b: a < b, ast.LtE: lambda a, b: a <= b,
-              ast.Gt: lambda a, b: a > b, ast.GtE: lambda a, b: a >= b, ast.Is: lambda a, b: a is b, ast.IsNot: lambda a, b: a is not b,
-              ast.In: lambda a, b: a in b, ast.NotIn: lambda a, b: a not in b}
-
-    def __init__(self, repo, stop_at, budget=40000):
-        self.repo, self.stop_at, self.budget = repo, stop_at, budget
-        self.executed = set()
-        self.seen = []
-
-    # -- driver
-    def capture(self, fi, args):
-        ps = fi.params()
-        missing = [k for k in args if k not in ps]
-        if missing:
-            raise AnalysisError('%s has no parameter(s) %s' % (fi.qualname, missing))
-        try:
-            self.call_function(fi, [], dict(args), 0)
-        except _Captured as c:
-            return c.call
-        except AnalysisError:
-            raise
-        except RecursionError:
-            raise AnalysisError('%s: sample run recursed too deep' % fi.qualname)
-        except Exception as e:
-            raise AnalysisError('%s: sample run failed (%s: %s)' % (fi.qualname, type(e).__name__, e))
-        raise AnalysisError('%s: sample run finished without calling %s' % (fi.qualname, self.stop_at))
-
-    def require_coverage(self):
-        for fi in self.seen:
-            body = list(fi.node.body)
-            doc = body[0] if body and isinstance(body[0], ast.Expr) and isinstance(body[0].value, ast.Constant) else None
-            for st in stmts_of(fi.node):
-                if st is doc or id(st) in self.executed or not isinstance(st, (ast.Assign, ast.AugAssign, ast.AnnAssign, ast.Expr, ast.Return)):
-                    continue
-                if any(isinstance(n, ast.Constant) and isinstance(n.value, str) and n.value.strip() for n in ast.walk(st)) or \
-                        any(isinstance(n, ast.JoinedStr) for n in ast.walk(st)):
-                    raise AnalysisError('%s: line %d can contribute text but was not reached on the sample run' % (fi.qualname, st.lineno))
-
-    def tick(self):
-        self.budget -= 1
-        if self.budget < 0:
-            raise AnalysisError('sample run exceeded its step budget')
-
-    def plain(self, v):
-        if isinstance(v, self.PLAIN) or isinstance(v, (_Opaque, _FB)):
-            return v
-        raise AnalysisError('sample run produced a value outside the modelled types: %r' % type(v).__name__)
-
-    # -- functions
-    def call_function(self, fi, pos, kw, depth):
-        if depth > 40:
-            raise AnalysisError('%s: sample run recursed too deep' % fi.qualname)
-        a = fi.node.args
-        if fi.node.decorator_list or a.vararg or a.kwarg or a.posonlyargs or any(isinstance(n, (ast.Yield, ast.YieldFrom, ast.Await)) for n in ast.walk(fi.node)):
-            raise AnalysisError('%s: not a plain function' % fi.qualname)
-        names = [x.arg for x in a.args]
-        if len(pos) > len(names):
-            raise AnalysisError('%s: too many arguments on the sample run' % fi.qualname)
-        env = dict(zip(names, pos))
-        for k, v in kw.items():
-            if k in env or k not in names + [x.arg for x in a.kwonlyargs]:
-                raise AnalysisError('%s: bad keyword %s on the sample run' % (fi.qualname, k))
-            env[k] = v
-        defaults = dict(zip(names[len(names) - len(a.defaults):], a.defaults))
-        for x, d in zip(a.kwonlyargs, a.kw_defaults):
-            if d is not None:
-                defaults[x.arg] = d
-        for n in names + [x.arg for x in a.kwonlyargs]:
-            if n not in env:
-                if n not in defaults:
-                    raise AnalysisError('%s: parameter %s unbound on the sample run' % (fi.qualname, n))
-                env[n] = self.ev(defaults[n], {}, fi, depth)
-        if fi not in self.seen:
-            self.seen.append(fi)
-        try:
-            self.block(fi.node.body, env, fi, depth)
-        except _Return as r:
-            return r.value
-        return None
-
-    # -- statements
-    def block(self, stmts, env, fi, depth):
-        for st in stmts:
-            self.tick()
-            self.executed.add(id(st))
-            if isinstance(st, ast.Expr):
-                self.ev(st.value, env, fi, depth)
-            elif isinstance(st, ast.Assign):
-                v = self.ev(st.value, env, fi, depth)
-                for t in st.targets:
-                    self.store(t, v, env, fi, depth)
-            elif isinstance(st, ast.AnnAssign):
-                if st.value is not None:
-                    self.store(st.target, self.ev(st.value, env, fi, depth), env, fi, depth)
-            elif isinstance(st, ast.AugAssign):
-                if type(st.op) not in self.BINOPS:
-                    raise AnalysisError('line %d: operator not modelled' % st.lineno)
-                cur = self.ev(self._as_load(st.target), env, fi, depth)
-                new = self.ev(st.value, env, fi, depth)
-                if isinstance(cur, (list, set, dict)) and isinstance(st.op, (ast.Add, ast.BitOr, ast.BitAnd, ast.Sub)):
-                    # in-place operators of mutable containers keep the object's identity
-                    if isinstance(cur, list) and isinstance(st.op, ast.Add):
-                        cur.extend(new)
-                    elif isinstance(cur, set) and isinstance(st.op, ast.BitOr):
-                        cur |= new
-                    elif isinstance(cur, set) and isinstance(st.op, ast.BitAnd):
-                        cur &= new
-                    elif isinstance(cur, set) and isinstance(st.op, ast.Sub):
-                        cur -= new
-                    else:
-                        raise AnalysisError('line %d: in-place operator not modelled' % st.lineno)
-                    self.store(st.target, cur, env, fi, depth)
-                else:
-                    self.store(st.target, self.plain(self.BINOPS[type(st.op)](cur, new)), env, fi, depth)
-            elif isinstance(st, ast.If):
-                self.block(st.body if self.ev(st.test, env, fi, depth) else st.orelse, env, fi, depth)
-            elif isinstance(st, ast.For):
-                it = self.ev(st.iter, env, fi, depth)
-                if not isinstance(it, (list, tuple, set, frozenset, dict, str)):
-                    raise AnalysisError('line %d: loop over a value of type %s' % (st.lineno, type(it).__name__))
-                broke = False
-                for x in list(it):
-                    self.store(st.target, x, env, fi, depth)
-                    try:
-                        self.block(st.body, env, fi, depth)
-                    except _Break:
-                        broke = True
-                        break
-                    except _Continue:
-                        continue
-                if not broke:
-                    self.block(st.orelse, env, fi, depth)
-            elif isinstance(st, ast.While):
-                broke = False
-                while self.ev(st.test, env, fi, depth):
-                    self.tick()
-                    try:
-                        self.block(st.body, env, fi, depth)
-                    except _Break:
-                        broke = True
-                        break
-                    except _Continue:
-                        continue
-                if not broke:
-                    self.block(st.orelse, env, fi, depth)
-            elif isinstance(st, ast.Return):
-                raise _Return(self.ev(st.value, env, fi, depth) if st.value is not None else None)
-            elif isinstance(st, ast.Break):
-                raise _Break()
-            elif isinstance(st, ast.Continue):
-                raise _Continue()
-            elif isinstance(st, (ast.Pass, ast.Assert)):
-                pass
-            else:
-                raise AnalysisError('%s line %d: %s is outside the modelled subset' % (fi.qualname, st.lineno, type(st).__name__))
-
-    @staticmethod
-    def _as_load(t):
-        import copy
-        t2 = copy.deepcopy(t)
-        for n in ast.walk(t2):
-            if hasattr(n, 'ctx'):
-                n.ctx = ast.Load()
-        return t2
-
-    def store(self, t, v, env, fi, depth):
-        if isinstance(t, ast.Name):
-            env[t.id] = v
-        elif isinstance(t, (ast.Tuple, ast.List)):
-            vs = list(v)
-            star = [i for i, e in enumerate(t.elts) if isinstance(e, ast.Starred)]
-            if star:
-                i = star[0]
-                after = len(t.elts) - i - 1
-                if len(vs) < len(t.elts) - 1:
-                    raise AnalysisError('line %d: not enough values to unpack' % t.lineno)
-                parts = vs[:i] + [vs[i:len(vs) - after]] + vs[len(vs) - after:]
-                for e, x in zip(t.elts, parts):
-                    self.store(e.value if isinstance(e, ast.Starred) else e, x, env, fi, depth)
-            else:
-                if len(vs) != len(t.elts):
-                    raise AnalysisError('line %d: unpacking %d values into %d targets' % (t.lineno, len(vs), len(t.elts)))
-                for e, x in zip(t.elts, vs):
-                    self.store(e, x, env, fi, depth)
-        elif isinstance(t, ast.Subscript) and not isinstance(t.slice, ast.Slice):
-            c = self.ev(t.value, env, fi, depth)
-            if not isinstance(c, (list, dict)):
-                raise AnalysisError('line %d: item store into %s' % (t.lineno, type(c).__name__))
-            c[self.ev(t.slice, env, fi, depth)] = v
-        else:
-            raise AnalysisError('line %d: store target outside the modelled subset' % t.lineno)
-
-    # -- expressions
-    def lookup(self, name, env, fi):
-        if name in env:
-            return env[name]
-        if name in self.MODELLED:
-            return ('model', name)
-        kind, m, obj = self.repo.resolve(fi.mod, name)
-        if kind == 'func':
-            if obj.name == self.stop_at:
-                return ('stop', obj)
-            if m is not None and not m.external:
-                return ('func', obj)
-        if kind == 'value' and m is not None:
-            try:
-                return self.plain(self.repo.fold(ast.Name(id=name, ctx=ast.Load()), m))
-            except AnalysisError:
-                raise
-            except Exception:
-                raise AnalysisError('module-level name %s has no constant value' % name)
-        if name in self.BUILTINS:
-            return ('builtin', name)
-        if kind in ('class', 'external', 'module') or name in fi.mod.imports or name in fi.mod.classes:
-            return _Opaque(name)
-        raise AnalysisError('name %s cannot be resolved on the sample run' % name)
-
-    def comp(self, gens, env, fi, depth, emit):
-        def rec(i, scope):
-            if i == len(gens):
-                emit(scope)
-                return
-            g = gens[i]
-            if g.is_async:
-                raise AnalysisError('async comprehension')
-            it = self.ev(g.iter, scope, fi, depth)
-            if not isinstance(it, (list, tuple, set, frozenset, dict, str)):
-                raise AnalysisError('comprehension over a value of type %s' % type(it).__name__)
-            for x in list(it):
-                self.tick()
-                sc = dict(scope)
-                self.store(g.target, x, sc, fi, depth)
-                if all(self.ev(c, sc, fi, depth) for c in g.ifs):
-                    rec(i + 1, sc)
-        rec(0, dict(env))
-
-    def args_of(self, call, env, fi, depth):
-        pos, kw = [], {}
-        for a in call.args:
-            if isinstance(a, ast.Starred):
-                pos.extend(list(self.ev(a.value, env, fi, depth)))
-            else:
-                pos.append(self.ev(a, env, fi, depth))
-        for k in call.keywords:
-            if k.arg is None:
-                d = self.ev(k.value, env, fi, depth)
-                if not isinstance(d, dict):
-                    raise AnalysisError('** of a non-dict on the sample run')
-                kw.update(d)
-            else:
-                kw[k.arg] = self.ev(k.value, env, fi, depth)
-        return pos, kw
-
-    def ev(self, e, env, fi, depth):
-        self.tick()
-        if isinstance(e, ast.Constant):
-            return self.plain(e.value)
-        if isinstance(e, ast.Name):
-            v = self.lookup(e.id, env, fi)
-            if isinstance(v, tuple) and len(v) == 2 and v[0] in ('model', 'stop', 'func', 'builtin'):
-                raise AnalysisError('line %d: function %s used as a value' % (e.lineno, e.id))
-            return v
-        if isinstance(e, ast.JoinedStr):
-            out = []
-            for v in e.values:
-                if isinstance(v, ast.Constant):
-                    out.append(str(v.value))
-                else:
-                    x = self.ev(v.value, env, fi, depth)
-                    if v.conversion == ord('r'):
-                        x = repr(x)
-                    elif v.conversion == ord('s'):
-                        x = str(x)
-                    spec = self.ev(v.format_spec, env, fi, depth) if v.format_spec is not None else ''
-                    out.append(format(x, spec))
-            return ''.join(out)
-        if isinstance(e, (ast.List, ast.Tuple, ast.Set)):
-            items = []
-            for x in e.elts:
-                if isinstance(x, ast.Starred):
-                    items.extend(list(self.ev(x.value, env, fi, depth)))
-                else:
-                    items.append(self.ev(x, env, fi, depth))
-            return list(items) if isinstance(e, ast.List) else (tuple(items) if isinstance(e, ast.Tuple) else set(items))
-        if isinstance(e, ast.Dict):
-            d = {}
-            for k, v in zip(e.keys, e.values):
-                if k is None:
-                    d.update(self.ev(v, env, fi, depth))
-                else:
-                    d[self.ev(k, env, fi, depth)] = self.ev(v, env, fi, depth)
-            return d
-        if isinstance(e, (ast.ListComp, ast.SetComp, ast.GeneratorExp)):
-            out = []
-            self.comp(e.generators, env, fi, depth, lambda sc: out.append(self.ev(e.elt, sc, fi, depth)))
-            return set(out) if isinstance(e, ast.SetComp) else out
-        if isinstance(e, ast.DictComp):
-            d = {}
-
-            def put(sc):
-                d[self.ev(e.key, sc, fi, depth)] = self.ev(e.value, sc, fi, depth)
-            self.comp(e.generators, env, fi, depth, put)
-            return d
-        if isinstance(e, ast.BinOp):
-            if type(e.op) not in self.BINOPS:
-                raise AnalysisError('line %d: operator not modelled' % e.lineno)
-            l, r = self.ev(e.left, env, fi, depth), self.ev(e.right, env, fi, depth)
-            if not isinstance(l, self.PLAIN) or not isinstance(r, self.PLAIN):
-                raise AnalysisError('line %d: operator applied to an opaque value' % e.lineno)
-            if isinstance(e.op, ast.Mult) and ((isinstance(l, int) and l > 200) or (isinstance(r, int) and r > 200)):
-                raise AnalysisError('line %d: repetition count too large on the sample run' % e.lineno)
-            return self.plain(self.BINOPS[type(e.op)](l, r))
-        if isinstance(e, ast.UnaryOp):
-            v = self.ev(e.operand, env, fi, depth)
-            if isinstance(e.op, ast.Not):
-                return not v
-            if isinstance(e.op, ast.USub) and isinstance(v, (int, float)):
-                return -v
-            raise AnalysisError('line %d: unary operator not modelled' % e.lineno)
-        if isinstance(e, ast.BoolOp):
-            v = None
-            for x in e.values:
-                v = self.ev(x, env, fi, depth)
-                if (isinstance(e.op, ast.And) and not v) or (isinstance(e.op, ast.Or) and v):
-                    return v
-            return v
-        if isinstance(e, ast.Compare):
-            l = self.ev(e.left, env, fi, depth)
-            for op, c in zip(e.ops, e.comparators):
-                r = self.ev(c, env, fi, depth)
-                if not self.CMPOPS[type(op)](l, r):
-                    return False
-                l = r
-            return True
-        if isinstance(e, ast.IfExp):
-            return self.ev(e.body if self.ev(e.test, env, fi, depth) else e.orelse, env, fi, depth)
-        if isinstance(e, ast.Subscript):
-            c = self.ev(e.value, env, fi, depth)
-            if not isinstance(c, (str, list, tuple, dict)):
-                raise AnalysisError('line %d: subscript of %s' % (e.lineno, type(c).__name__))
-            if isinstance(e.slice, ast.Slice):
-                f = lambda x: self.ev(x, env, fi, depth) if x is not None else None
-                return c[slice(f(e.slice.lower), f(e.slice.upper), f(e.slice.step))]
-            return self.plain(c[self.ev(e.slice, env, fi, depth)])
-        if isinstance(e, ast.Attribute):
-            c = self.ev(e.value, env, fi, depth)
-            if isinstance(c, _FB) and e.attr == 'varkw':
-                return c.varkw
-            raise AnalysisError('line %d: attribute .%s read on the sample run' % (e.lineno, e.attr))
-        if isinstance(e, ast.Call):
-            return self.call(e, env, fi, depth)
-        raise AnalysisError('line %d: %s is outside the modelled subset' % (getattr(e, 'lineno', 0), type(e).__name__))
-
-    def call(self, e, env, fi, depth):
-        f = e.func
-        if isinstance(f, ast.Name):
-            tgt = self.lookup(f.id, env, fi)
-            pos, kw = self.args_of(e, env, fi, depth)
-            if isinstance(tgt, tuple) and tgt[0] == 'stop':
-                raise _Captured(pos, kw)
-            if isinstance(tgt, tuple) and tgt[0] == 'model':
-                return self.MODELLED[tgt[1]](*pos, **kw)
-            if isinstance(tgt, tuple) and tgt[0] == 'func':
-                return self.call_function(tgt[1], pos, kw, depth + 1)
-            if isinstance(tgt, tuple) and tgt[0] == 'builtin':
-                if any(isinstance(x, (_Opaque, _FB)) for x in pos) and tgt[1] not in ('repr', 'str', 'list', 'tuple', 'len', 'bool'):
-                    raise AnalysisError('line %d: %s applied to an opaque value' % (e.lineno, tgt[1]))
-                if 'key' in kw:
-                    raise AnalysisError('line %d: key functions are not modelled' % e.lineno)
-                v = self.BUILTINS[tgt[1]](*pos, **kw)
-                return self.plain(v)
-            raise AnalysisError('line %d: call of the value %s' % (e.lineno, f.id))
-        if isinstance(f, ast.Attribute):
-            dn = None
-            x, parts = f, []
-            while isinstance(x, ast.Attribute):
-                parts.append(x.attr)
-                x = x.value
-            if isinstance(x, ast.Name) and x.id not in env:
-                dn = '.'.join([x.id] + parts[::-1])
-            if dn in ('itertools.chain.from_iterable', 'chain.from_iterable') and (dn.split('.')[0] in fi.mod.imports):
-                pos, kw = self.args_of(e, env, fi, depth)
-                return [y for sub in pos[0] for y in sub]
-            if dn in ('itertools.chain',) and 'itertools' in fi.mod.imports:
-                pos, kw = self.args_of(e, env, fi, depth)
-                return [y for sub in pos for y in sub]
-            recv = self.ev(f.value, env, fi, depth)
-            pos, kw = self.args_of(e, env, fi, depth)
-            if isinstance(recv, _FB) and f.attr in ('get_arg_names', 'get_defaults_dict'):
-                return getattr(recv, f.attr)(*pos, **kw)
-            for ty, ok in self.METHODS.items():
-                if type(recv) is ty and f.attr in ok:
-                    if 'key' in kw:
-                        raise AnalysisError('line %d: key functions are not modelled' % e.lineno)
-                    v = getattr(recv, f.attr)(*pos, **kw)
-                    if f.attr in ('items', 'keys', 'values'):
-                        v = list(v)
-                    return self.plain(v)
-            raise AnalysisError('line %d: method .%s of %s is not modelled' % (e.lineno, f.attr, type(recv).__name__))
-        raise AnalysisError('line %d: call form outside the modelled subset' % e.lineno)
 
 
 def _construction_only_methods(repo, ci):
